@@ -11,6 +11,8 @@ TRUSTED_BASE = ["harness/cache_corr.py: in-memory stores with one strictly incre
 
 
 def run(ctx):
+    import translate_stale
+    translate_stale.check(ctx)      # caching.py's stale decision, translated to Gallina and linked to the model by a theorem
     camp = cache_corr.Campaign(ctx)
     cache_corr.history_campaign(ctx, camp, ctx.n(60, 1200), ctx.n(6, 8))
     import cache_files
